@@ -15,7 +15,7 @@ C_DRIVER = "harness/drivers/c16_driver.c"
 EXTRA_C = ["harness/c16_alloc.c"]
 REPO_SOURCES = V.all_repo_sources()
 WRAPS = ["malloc", "free", "calloc", "realloc", "aligned_alloc", "timespec_get", "time", "syscall",
-         "fwrite", "pthread_create", "pthread_join"]
+         "fwrite", "fclose", "fopen", "pthread_create", "pthread_join"]
 HEADER_LINES = 3
 SHRINK_BUDGET = 30
 CASE_TIMEOUT = 20.0
@@ -35,7 +35,9 @@ RULE = ("mode seq: every level x handler-level pair (the six levels plus off-gri
         "all boundaries of the formatted line around LIMIT, printable / format-like ('%s%n') / non-ASCII content, both "
         "built-in formatters, custom + file + console + rotating handlers, sync and async loggers, malloc failure "
         "positions; mode thr: 1..16 real producer threads with tagged payloads (sync, async below and above queue "
-        "capacity); mode vs: the same code under the deterministic scheduler (handler-mutex atomicity; async queue-full "
+        "capacity), incl. 2..8 threads through the size-rotating handler with a small max_bytes (dozens of rotations) and "
+        "the time-rotating handler with the per-call clock crossing periods, the stream checked being all backup / period "
+        "files + the live file; mode vs (rotating handlers too: fclose / fopen of a rotation are scheduling points): the same code under the deterministic scheduler (handler-mutex atomicity; async queue-full "
         "and shutdown paths) with every trace replayed on the extracted model; non-trivial = a call is filtered and "
         "another accepted, or a line reaches/exceeds LIMIT, or threads contend / the queue overflows; distinct = "
         "distinct case text")
@@ -56,21 +58,18 @@ ASSUMPTIONS = [
     "async logger: channel capacity >= 3 (usable capacity >= 1) for destroy to return",
 ]
 EVIDENCE_NOTES = [
-    "async_destroy_drains is proved as async_destroy_drains_partial: once destroy has returned the writer thread has left "
-    "through the sentinel and every message it took is written whole on every accepting handler, accepted = taken ++ "
-    "queued; missing: 'nothing is queued behind the sentinel' (needs the counting invariant a_remaining = producers still "
-    "logging).  The monitor checks the full statement on every scheduler trace.",
-    "async_no_leak_on_full is proved as async_no_leak_on_full_partial: the refused message's two allocations are released "
-    "before the producer's next call (step-level lemma) and a complete concrete history ends with nothing outstanding; "
-    "missing: the global accounting invariant (a sum over threads).  The allocation shim checks zero outstanding blocks "
-    "after destroy on every run and the model's live count must equal the implementation's.",
+    "async_destroy_drains and async_no_leak_on_full are proved in full for the repaired code (C16/ProofsAcct.v: counting "
+    "invariant a_remaining = number of producers still logging, 'the sentinel is the last thing ever queued', and the "
+    "allocation books as a sum over the producer threads), for any number of producers >= 1, calls, handlers and capacity.",
+    "known finding async-capacity-unusable follows the pattern of DESIGN.md 3.2: in_known_class A = (usable capacity 0); "
+    "async_destroy_returns_refuted: in the class no schedule makes destroy return (universal invariant) plus the concrete "
+    "retry-loop witness; async_destroy_returns_partial: outside the class every refusal of the sentinel leaves messages for "
+    "the writer thread, which has not exited and has no lost wake-up (safety core; termination under a fair scheduler is "
+    "not formalised; the scheduler runs check it: no LIVELOCK/DEADLOCK outside the class).",
     "log_no_oob_refuted_before_repair and async_leak_and_hang_before_repair record the defects of the code as first found; "
-    "the model the implementation is compared with is the repaired one (fixes/C16-*.patch).",
-    "async logger with channel capacity <= 2: the channel can hold nothing (usable = next_pow_of_2(capacity) - 2 = 0), every "
-    "message is dropped and destroy spins for ever; such capacities are generated only when the class "
-    "async-capacity-unusable is listed in known_findings.txt (replay findings/C16-async-capacity-unusable.case).",
-    "payload malloc unchecked (DESIGN.md section 5) was repaired in /repo by commit cd82dd8 (C18); corpus case "
-    "corpus-async-payload-malloc-fails keeps checking it.",
+    "the model the implementation is compared with is the repaired one (commits 59dfdd3, ad89fa8, 0e247d7, cd82dd8).",
+    "quick tier: the extracted handler_write is index-level (quadratic in unary nat), so the quick tier uses a coarse length "
+    "grid plus the exact boundary of every built-in handler kind x formatter (edge-*); the thorough tier uses the full grid.",
 ]
 
 
@@ -162,10 +161,12 @@ def _seq(name, logger, hs, ops, clock=(1700000000, 123456789), meta=None):
     return V.Case(name, lines, meta or {})
 
 
-def _thr(name, mode, logger, hs, n, msgs, paylen, sched=None, lossy=False):
+def _thr(name, mode, logger, hs, n, msgs, paylen, sched=None, lossy=False, tick=0):
     lines = ["mode " + mode, "logger " + logger, "clock 1700000000 123456789"]
     lines += ["h %s %d %s" % h for h in hs]
     lines.append("threads %d %d %d" % (n, msgs, paylen))
+    if tick:
+        lines.append("tick %d" % tick)
     if lossy:
         lines.append("lossy 1")
     if sched:
@@ -173,11 +174,13 @@ def _thr(name, mode, logger, hs, n, msgs, paylen, sched=None, lossy=False):
     return V.Case(name, lines, {})
 
 
-def _boundary_lengths(limit):
-    # payload lengths that put the formatted line (prefix ~20 simple / ~58 complicated, + newline) around LIMIT
+def _boundary_lengths(limit, tier="thorough"):
+    # payload lengths that put the formatted line (prefix ~20 simple / ~58 complicated, + newline) around LIMIT.
+    # The extracted model's handler_write is index-level (quadratic in unary nat), so the quick tier keeps the
+    # grid coarse here; the exact boundary of every handler kind x formatter is hit by the "edge-*" cases.
     ls = {0, 1, 2, 100, limit // 2, limit - 2, limit - 1, limit, limit + 1, 2 * limit, 3 * limit}
-    for prefix in (20, 21, 59, 60):
-        for d in (-3, -2, -1, 0, 1, 2):
+    for prefix in ((20, 59) if tier == "quick" else (20, 21, 59, 60)):
+        for d in ((-1, 0, 1) if tier == "quick" else (-3, -2, -1, 0, 1, 2)):
             ls.add(limit - 1 - prefix + d)
     return sorted(x for x in ls if x >= 0)
 
@@ -207,6 +210,8 @@ def corpus_cases(ctx):
              sched="list - " + " ".join(["1"] * 300)),
         _thr("corpus-vs-async-two-producers-full", "vs", "async 3", [("cap", 256, "simple"), ("file", 0, "simple")], 2, 3, 12,
              sched="list - " + " ".join(["1", "2"] * 150)),
+        _thr("corpus-vs-rot-contended", "vs", "sync", [("rots", 0, "simple"), ("trots", 0, "simple")], 3, 3, 12, tick=1,
+             sched="list - " + " ".join(["0", "1", "2"] * 200)),
         _thr("corpus-vs-sync-contended", "vs", "sync", [("file", 0, "simple"), ("cap", 0, "complicated")], 3, 2, 12,
              sched="list - " + " ".join(["0", "1", "2"] * 100)),
     ]
@@ -228,7 +233,7 @@ def generate(rng, tier):
                   [("cap", 0, "complicated"), ("file", 0, "complicated"), ("cap", 0, "raw")],
                   [("console", 0, "simple"), ("rot", 0, "complicated")],
                   [("trot", 0, "simple"), ("conplain", 0, "complicated")]]
-    lens = _boundary_lengths(limit)
+    lens = _boundary_lengths(limit, tier)
     contents = ["ascii", "fmt", "utf8", "high", "rand"]
     k = 0
     for n in lens:
@@ -246,10 +251,11 @@ def generate(rng, tier):
         for fm in (0, 1):
             lv, srcline = LEVELS[(len(kd) + fm) % 6], 77
             base = limit - len(format_line(fm, lv, srcline, 4242, (1700000000, 123456789), b""))
-            ops = [("log", lv, srcline, "s", _content(rng, "ascii", base + d)) for d in (-2, -1, 0, 1, 2)]
+            ops = [("log", lv, srcline, "s", _content(rng, "ascii", base + d))
+                   for d in ((-1, 0, 1) if tier == "quick" else (-2, -1, 0, 1, 2))]
             ops.append(("log", lv, srcline, "s", b"after"))
-            cases.append(_seq("edge-%s-%d" % (kd, fm), "sync" if fm else "async 64",
-                              [(kd, 0, "complicated" if fm else "simple"), ("cap", 0, "raw")], ops))
+            hs_edge = [(kd, 0, "complicated" if fm else "simple")] + ([] if tier == "quick" else [("cap", 0, "raw")])
+            cases.append(_seq("edge-%s-%d" % (kd, fm), "sync" if fm else "async 64", hs_edge, ops))
     # (c) random mixes
     nrand = 40 if tier == "quick" else 600
     for i in range(nrand):
@@ -265,7 +271,10 @@ def generate(rng, tier):
             hs.append((kd, rng.choice(allv), rng.choice(["simple", "complicated"])))
         ops = []
         for j in range(rng.range(1, 8)):
-            n = rng.choice([0, 1, 5, 40, 200, rng.below(300), limit - 60 + rng.below(70)]) if rng.chance(9, 10) else rng.below(3 * limit)
+            if tier == "quick":
+                n = rng.choice([0, 1, 5, 40, 200, rng.below(300)]) if rng.chance(19, 20) else rng.choice([limit - 60 + rng.below(70), rng.below(3 * limit)])
+            else:
+                n = rng.choice([0, 1, 5, 40, 200, rng.below(300), limit - 60 + rng.below(70)]) if rng.chance(9, 10) else rng.below(3 * limit)
             ck = rng.choice(contents)
             tm = rng.choice(["s", "s", "ds", "lit"])
             c = _content(rng, ck, n)
@@ -296,12 +305,30 @@ def generate(rng, tier):
     for n in (2, 8, 16):
         cases.append(_thr("thr-async-burst-%d" % n, "thr", "async 8", [("cap", 0, "simple"), ("file", 256, "simple")],
                           n, msgs, 30, lossy=True))
+    # (f2) real threads through the ROTATING handlers with rotations actually happening: size rotation with a
+    # small max_bytes (dozens of rotations), time rotation with the per-call clock crossing periods; the stream
+    # checked is the concatenation of all backup / period files + the live file
+    for n in ((2, 4, 8) if tier == "quick" else (2, 3, 4, 6, 8)):
+        for r in range(1 if tier == "quick" else 4):
+            cases.append(_thr("thr-rot-size-%d-%d" % (n, r), "thr", "sync",
+                              [("rots", 256, "simple"), ("rots", 0, "complicated")], n, msgs, 24 + n, tick=1))
+            cases.append(_thr("thr-rot-time-%d-%d" % (n, r), "thr", "sync",
+                              [("trots", 0, "complicated"), ("trots", 512, "simple"), ("rots", 512, "simple")], n, msgs, 20 + n, tick=1))
+    cases.append(_thr("thr-rot-async-4", "thr", "async 4096", [("rots", 0, "simple"), ("trots", 256, "complicated")], 4, msgs, 30, tick=1))
     # (g) deterministic scheduler: handler-mutex atomicity (sync) and the async queue-full / shutdown paths
     nvs = 12 if tier == "quick" else 150
     for i in range(nvs):
         n, m = rng.range(2, 4), rng.range(1, 3)
         hs = [(rng.choice(["cap", "file"]), rng.choice(LEVELS[:4]), rng.choice(["simple", "complicated"])) for _ in range(rng.range(1, 3))]
         cases.append(_thr("vs-sync-%d" % i, "vs", "sync", hs, n, m, 12,
+                          sched="rand %d %d 0 0" % (rng.below(1 << 30), rng.choice([20, 50, 80]))))
+    # rotating handlers under the scheduler: fclose / fopen of a rotation are scheduling points, so the window in
+    # which the handler has no stream is exposed to every other thread
+    for i in range(nvs):
+        n, m = rng.range(2, 3), rng.range(2, 4)
+        hs = [(rng.choice(["rots", "rots", "trots"]), rng.choice(LEVELS[:3]), rng.choice(["simple", "complicated"]))
+              for _ in range(rng.range(1, 2))]
+        cases.append(_thr("vs-rot-%d" % i, "vs", "sync", hs, n, m, 12, tick=1,
                           sched="rand %d %d 0 0" % (rng.below(1 << 30), rng.choice([20, 50, 80]))))
     for capy in (3, 4, 8):
         for i in range(nvs):
@@ -344,7 +371,7 @@ def model_cases(cases, impl_results):
 
 def _parse_case(case):
     cfg = {"mode": "seq", "async": False, "cap": 0, "clock": (1700000000, 123456789), "hs": [], "ops": [],
-           "threads": None, "lossy": False, "sched": None}
+           "threads": None, "lossy": False, "sched": None, "tick": 0}
     for ln in case.lines:
         w = ln.split()
         if not w:
@@ -368,6 +395,8 @@ def _parse_case(case):
             cfg["threads"] = (int(w[1]), int(w[2]), int(w[3]))
         elif w[0] == "lossy":
             cfg["lossy"] = True
+        elif w[0] == "tick" and len(w) == 2:
+            cfg["tick"] = int(w[1])
         elif w[0] == "sched":
             cfg["sched"] = ln[6:]
     return cfg
@@ -540,6 +569,11 @@ def make_payload(paylen, t, k):
 TAG = re.compile(rb" - T(\d\d)-(\d{6})-")
 
 
+def _clock(cfg, k):
+    """clock of call k of every thread (thr / vs scenarios with 'tick')"""
+    return (cfg["clock"][0] + k * cfg["tick"], cfg["clock"][1])
+
+
 def _check_streams_threads(cfg, lines, limit, lossy, partial_ok=False):
     """Every stream consists of whole formatted lines of tagged calls; per thread the message
     numbers increase; exactly the accepted calls appear (lossy: a subset, no duplicates)."""
@@ -568,7 +602,7 @@ def _check_streams_threads(cfg, lines, limit, lossy, partial_ok=False):
             if t >= n or k >= msgs:
                 return "handler %d: line of an unknown call T%d-%d: %r" % (i, t, k, r[:80])
             level = thr_level(t, k)
-            exp = cut_line(format_line(fmt, level, 1000 + t, 100 + t, cfg["clock"], make_payload(paylen, t, k)[:limit - 1]), limit)
+            exp = cut_line(format_line(fmt, level, 1000 + t, 100 + t, _clock(cfg, k), make_payload(paylen, t, k)[:limit - 1]), limit)
             if r + b"\n" != exp:
                 kk = _first_diff(r + b"\n", exp)
                 return "handler %d: torn/interleaved line for call T%d-%d at byte %d: got %r expected %r" % (
@@ -643,6 +677,15 @@ def _mon_vs(cfg, lines, limit):
                 frees[w[3]] = pos
             elif w[2] == "mallocfail":
                 pass
+            elif w[2] == "fwclosed":
+                return ("thread %d writes to a stream of handler %s that a rotation has already closed (the handler mutex "
+                        "does not cover the write)" % (t, w[3]))
+            elif w[2] == "rotop":
+                if not cfg["async"]:
+                    if w[3] != "-" and holder.get(int(w[3])) != t:
+                        return "thread %d rotates handler %s's file without holding its mutex (holder: %s)" % (t, w[3], holder.get(int(w[3])))
+                    if w[3] == "-" and t not in holder.values():
+                        return "thread %d reopens a handler file without holding the handler mutex" % t
             elif w[2] in ("emit1", "emit2", "fw1", "fw2"):
                 last_emit = pos
                 h = int(w[3])
@@ -696,7 +739,7 @@ def _mon_vs(cfg, lines, limit):
             for (t, k) in accepted:
                 lv = thr_level(t, k)
                 if lv >= hl:
-                    exp += cut_line(format_line(fmt, lv, 1000 + t, 100 + t, cfg["clock"], make_payload(paylen, t, k)[:limit - 1]), limit)
+                    exp += cut_line(format_line(fmt, lv, 1000 + t, 100 + t, _clock(cfg, k), make_payload(paylen, t, k)[:limit - 1]), limit)
             if got.get(("file", i)) != exp:
                 g = got.get(("file", i), b"")
                 return ("handler %d: the async logger's stream differs from the lines of the %d accepted calls in queue order "
@@ -776,8 +819,9 @@ MANIFEST = {
                    "and level pair; emitted bytes = the formatted line cut at LIMIT-1 with every buffer index < LIMIT "
                    "(index-level model of the handlers' stack buffer; refuted for the code as found, proved for the "
                    "repaired code); per-handler line atomicity and per-thread order for every schedule and any number of "
-                   "threads (handler mutex at scheduler granularity); async logger (abstract bounded FIFO): same lines as "
-                   "sync, destroy drains, no leak on a full queue.  Tie: differential run of the extracted model against "
+                   "threads (handler mutex at scheduler granularity); async logger (abstract bounded FIFO, any number of "
+                   "producers): same lines as sync, destroy drains, nothing outstanding after destroy even when the queue "
+                   "overflows; capacity <= 2 characterised as a known finding (never returns).  Tie: differential run of the extracted model against "
                    "the real loggers/handlers under ASan (custom, file, console, rotating handlers), real threads with "
                    "tagged payloads, deterministic-scheduler traces replayed on the model, independent Python monitor."),
     "design_ref": "DESIGN.md section 6 / C16, section 5",
